@@ -107,6 +107,11 @@ func c14Scenario(msize uint32, dotu bool, lengths []int, part string) Scenario {
 				os.Remove(filepath.Join(root, openAs))
 				os.Link(path, filepath.Join(root, openAs))
 			}
+			// the modes a file can be read through: OREAD, and OEXEC (which is a way of reading)
+			readMode := uint8(go9p.OREAD)
+			if strings.Contains(part, "opened OEXEC") {
+				readMode = go9p.OEXEC
+			}
 			bad := withUfsClient(root, msize, dotu, func(c *go9p.Clnt, h *SrvH) string {
 				expect := func(off, cnt int) []byte {
 					if cnt > u {
@@ -122,7 +127,7 @@ func c14Scenario(msize uint32, dotu bool, lengths []int, part string) Scenario {
 					return content[off:end]
 				}
 				if strings.HasPrefix(part, "read") {
-					f, err := c.FOpen(openAs, go9p.OREAD)
+					f, err := c.FOpen(openAs, readMode)
 					if err != nil {
 						return fmt.Sprintf("FOpen: %v", err)
 					}
@@ -171,7 +176,7 @@ func c14Scenario(msize uint32, dotu bool, lengths []int, part string) Scenario {
 						if bs == 0 || L/bs > 4000 || rc.Expired() {
 							continue // (tiny buffers over a very long file: thousands of identical round trips)
 						}
-						g, err := c.FOpen(openAs, go9p.OREAD)
+						g, err := c.FOpen(openAs, readMode)
 						if err != nil {
 							return fmt.Sprintf("FOpen: %v", err)
 						}
@@ -713,6 +718,7 @@ func c14Scenarios(tier string) []Scenario {
 			}
 		}
 	}
+	out = append(out, c14Scenario(40, false, []int{0, 1, 5, 16, 33, 50}, "read opened OEXEC"), c14Scenario(152, true, []int{0, 127, 128, 129, 300}, "read opened OEXEC"))
 	for i, via := range []string{"via symlink", "via hard link", "via relative link behind a directory link"} {
 		for _, ms := range []uint32{32, 40} {
 			if i == 2 && ms == 32 {
